@@ -769,6 +769,32 @@ func (e *Eng) inlineNewHelpers(all map[*ssa.Function]bool) {
 	for g := range il.touched {
 		simplifyCFG(g)
 	}
+	// a literal defined in a helper that now lives in exactly one caller is that caller's literal
+	for _, f := range mod {
+		if f.Parent() == nil || !il.newFuncs[f.Parent()] {
+			continue
+		}
+		n := 0
+		var host *ssa.Function
+		for _, g := range mod {
+			if g == f.Parent() {
+				continue
+			}
+			for _, b := range g.Blocks {
+				for _, in := range b.Instrs {
+					if mc, ok := in.(*ssa.MakeClosure); ok && mc.Fn == ssa.Value(f) {
+						n++
+						host = g
+					}
+				}
+			}
+		}
+		if n == 1 && host != nil && !il.newFuncs[host] {
+			setUnexported(f, "parent", host)
+			host.AnonFuncs = append(host.AnonFuncs, f)
+			e.InlineLog = append(e.InlineLog, "literal "+fnName(f)+" now belongs to "+fnName(host))
+		}
+	}
 	// helpers that are now referenced nowhere are absorbed: whole-program rules do not see them
 	refd := map[*ssa.Function]bool{}
 	for f := range all {
